@@ -104,7 +104,7 @@ TWriteEnd ==
     /\ wpend[Ev.c].b # -1 /\ wpend[Ev.c].applied
     /\ wpend' = [wpend EXCEPT ![Ev.c] = NoW]
     /\ cand' = [cand EXCEPT ![Ev.k] = {IF Ev.op = "rem" THEN AbsentV ELSE Ev.v}]
-    /\ UNCHANGED <<vars, callow, gal, tagsSeen, runTags>>
+    /\ UNCHANGED <<vars, callow, gal, hk, tagsSeen, runTags>>
     /\ Consume
 
 TSubmit ==
